@@ -202,16 +202,19 @@ theorem gateCtor_zero_mul_rejected (d d' : Detect) :
 
 /-! ## NormActivation -/
 
-/-- **Constructor defect** (reproduced on the real code): `normalize = False` cannot be constructed — with
-`epsilon = None` the guard evaluates `None > 0` (TypeError), with an `epsilon` it raises the ValueError. -/
-theorem normActCtor_normalize_false_unconstructible (eps : Option ℝ) (bias isStr : Bool) :
-    ∃ e, normActCtor false eps bias isStr = .error e ∧ (eps = none → e = .noneGtInt) := by
-  cases eps <;> simp [normActCtor]
+/-- **`normalize = False` is constructible** (repaired by 2872ee3; before, the guard evaluated `None > 0`): the stored
+`epsilon` stays `None` — so `Norm(squared=False)` is used and nothing is clamped — and `epsilon` together with
+`normalize = False` is still refused. -/
+theorem normActCtor_normalize_false (ε : ℝ) (bias isStr : Bool) :
+    normActCtor false (none : Option ℝ) bias isStr = .ok none ∧
+    normActCtor false (some ε) bias isStr = .error .epsNoNormalize := by
+  simp [normActCtor]
 
-/-- constructor defect (reproduced): `bias=True` with `irreps_in` given as a `str` reads `.num_irreps` of the raw `str` -/
-theorem normActCtor_bias_str (nz : Bool) (eps : Option ℝ) : ∃ e, normActCtor nz eps true true = .error e := by
-  unfold normActCtor
-  cases eps <;> cases nz <;> simp <;> split <;> simp
+/-- **`bias=True` with `irreps_in` given as a `str` is constructible** (repaired by 11f82c3): no branch of the
+constructor depends on `bias` or on how the irreps were spelled. -/
+theorem normActCtor_bias_str (nz : Bool) (eps : Option ℝ) (bias isStr : Bool) :
+    normActCtor nz eps bias isStr = normActCtor nz eps false false := by
+  cases eps <;> cases nz <;> rfl
 
 /-- the accepted configurations: `normalize = True` with `epsilon = None` (stored `1e-8`) or `epsilon > 0` -/
 theorem normActCtor_accepts (ε : ℝ) (hε : 0 < ε) :
@@ -279,7 +282,36 @@ theorem normAct_single_copy {ε : ℝ} (hε : 0 < ε) (l : Nat) (p : Bool) (phi 
     List.map_cons, List.map_nil]
   rw [scaleByC_single l p _ v hv, (normScale_values phi hε 0 (sumSq v)).1 hbig, add_zero]
 
-/-- **NormActivation is equivariant** (any action, layout, nonlinearity, stored epsilon, normalize, bias; all inputs) -/
+/-- **Closed form for `normalize = False`** (stored epsilon `None`, reachable through the constructor since 2872ee3):
+copy `u` is multiplied by `φ(‖x_u‖ + b_u)`, again a function of its Euclidean norm only. -/
+theorem normAct_closed_form_unnormalized (irr : Irreps) (phi : ℝ → ℝ)
+    (bias : Option (List ℝ)) (hb : ∀ b, bias = some b → b.length = numIrreps irr)
+    (x : List ℝ) (hx : x.length = dim irr) :
+    normActCtor false (none : Option ℝ) bias.isSome false = .ok none ∧
+    normActFwd irr phi false none bias x
+      = .ok (scaleByC (expand irr) ((biasList bias (numIrreps irr)).map (plainScale phi)) x) :=
+  ⟨by simp [normActCtor], normActFwd_closed_form_plain irr phi bias hb x hx⟩
+
+/-- **`normalize = False` at zero input**: `φ(0 + b) · 0 = 0` on every copy. -/
+theorem normAct_zero_input_unnormalized (irr : Irreps) (phi : ℝ → ℝ)
+    (bias : Option (List ℝ)) (hb : ∀ b, bias = some b → b.length = numIrreps irr) :
+    normActFwd irr phi false none bias (List.replicate (dim irr) 0) = .ok (List.replicate (dim irr) 0) := by
+  rw [normActFwd_closed_form_plain irr phi bias hb _ (by simp), ← cdim_expand]
+  rw [scaleByC_zero]
+  cases bias with
+  | none => simp [biasList, length_expand]
+  | some b => simp [biasList, length_expand, hb b rfl]
+
+/-- one copy, `normalize = False`, no bias: `x ↦ φ(|x|) · x` (at `x = 0`: `φ(0) · 0`) -/
+theorem normAct_single_copy_unnormalized (l : Nat) (p : Bool) (phi : ℝ → ℝ) (v : List ℝ) (hv : v.length = irDim l) :
+    normActFwd [(1, l, p)] phi false none none v = .ok (v.map (· * phi (Real.sqrt (sumSq v)))) := by
+  rw [normActFwd_closed_form_plain _ phi none (by simp) v (by simp [mulIrDim, hv])]
+  simp only [expand_cons, expand_nil, List.append_nil, List.replicate_one, biasList, numIrreps, Nat.add_zero,
+    List.map_cons, List.map_nil]
+  rw [scaleByC_single l p _ v hv, plainScale, add_zero]
+
+/-- **NormActivation is equivariant** (any action, layout, nonlinearity, bias; every (normalize, stored epsilon) —
+in particular the two the constructor produces, `(True, some ε)` and `(False, None)`; all inputs) -/
 theorem normAct_equivariant (A : Action) (irr : Irreps) (phi : ℝ → ℝ) (normalize : Bool)
     (epsilon : Option ℝ) (bias : Option (List ℝ)) (hb : ∀ b, bias = some b → numIrreps irr ≤ b.length)
     (x : List ℝ) (hx : x.length = dim irr) :
